@@ -451,6 +451,9 @@ static void tramp(int t) {
     swapcontext(&T[t].ctx, &main_ctx);
 }
 
+static int ignore_serial_request = 0;
+void vrt_ignore_serial_request(int v) { ignore_serial_request = v; }
+
 void GOMP_parallel(void (*fn)(void *), void *data, unsigned num_threads, unsigned flags) {
     (void)flags;
     if (active) { /* nested (or inside one of two concurrent callers): serialise, one thread */
@@ -460,6 +463,10 @@ void GOMP_parallel(void (*fn)(void *), void *data, unsigned num_threads, unsigne
     nregions++;
     record_region_state((unsigned char *)__builtin_frame_address(0) + 16, (void *)fn);
     nthr = num_threads ? (int)num_threads : nthr_cfg;
+    /* an `if (n > threshold)` clause that evaluates to false arrives here as num_threads == 1.  When the driver asks for it, the
+     * request is overridden so that the schedules of the PARALLEL version of the loop are explored at a small size (the loop body
+     * and its data-sharing clauses are the same for every n; only an exploration at the real threshold size would be infeasible). */
+    if (num_threads == 1 && ignore_serial_request) nthr = nthr_cfg;
     if (nthr > MAXT) nthr = MAXT;
     if (nthr < 1) nthr = 1;
     barrier_count = 0;
